@@ -39,6 +39,14 @@ def run_mutants(prop, rep):
             r = subprocess.run([os.path.join(VERIF, "bin/check"), prop, "quick"], env=env,
                                stdout=subprocess.PIPE, stderr=subprocess.STDOUT)
             out = r.stdout.decode(errors="replace")
+            if m.get("neutral"):
+                shutil.rmtree(d, ignore_errors=True)
+                alarms = [l for l in out.splitlines() if l.startswith(("FINDING ", "VIOLATION "))]
+                st = "silent (exit %d)" % r.returncode if not alarms else "FALSE ALARM on a behaviour-preserving change"
+                res = {"name": m["name"], "rule": "-", "expect": "no finding", "status": st}
+                if alarms:
+                    res["output_tail"] = "\n".join(alarms)[:1500]
+                return res
             hit = False
             for line in out.splitlines():
                 if line.startswith("FINDING ") and ("rule=%s " % m["rule"]) in line and \
@@ -55,7 +63,7 @@ def run_mutants(prop, rep):
             results = list(ex.map(one, mine))
     finally:
         shutil.rmtree(root, ignore_errors=True)
-    det = sum(1 for r in results if r["status"] == "detected")
+    det = sum(1 for r in results if r["status"] == "detected" or r["status"].startswith("silent"))
     app = sum(1 for r in results if not r["status"].startswith("stale"))
     rep.extra["mutants"] = {"total": len(results), "applicable": app, "detected": det, "results": results}
     for r in results:
